@@ -74,6 +74,9 @@ func (c10Listener) Accept() (net.Conn, error) {
 		if out == 1 {
 			return nil, errors.New("accept failed")
 		}
+		if out == 3 {
+			return nil, &c10TimeoutErr{}
+		}
 		if out == 2 {
 			c10.shutdown() // shutdown arrives exactly while the connection is being established
 		}
@@ -96,6 +99,15 @@ func (c10Listener) Addr() net.Addr { return c10Addr{} }
 
 func verifStub_netListen(network, address string) (net.Listener, error) { return c10Listener{}, nil }
 
+// c10TimeoutErr: what package net reports for an i/o timeout (a peer that silently drops packets): its
+// timeout error answers errors.Is(err, context.DeadlineExceeded) with true although nothing was cancelled
+type c10TimeoutErr struct{}
+
+func (*c10TimeoutErr) Error() string         { return "i/o timeout" }
+func (*c10TimeoutErr) Timeout() bool         { return true }
+func (*c10TimeoutErr) Temporary() bool       { return true }
+func (*c10TimeoutErr) Is(target error) bool { return target == context.DeadlineExceeded }
+
 func verifStub_DialTimeout(network, address string, timeout time.Duration) (net.Conn, error) {
 	c10.attempts++
 	var out int
@@ -108,6 +120,9 @@ func verifStub_DialTimeout(network, address string, timeout time.Duration) (net.
 	c10.attempts--
 	if out == 1 {
 		return nil, errors.New("dial failed")
+	}
+	if out == 3 {
+		return nil, &c10TimeoutErr{}
 	}
 	if out == 2 {
 		c10.shutdown() // shutdown arrives exactly while the dial is succeeding
@@ -260,7 +275,7 @@ func verifHarness_C10_pool() {
 			if c10.attempts == 0 {
 				verifAssume(false) // pool is full: nobody is waiting for a connection
 			}
-			out := verifChoose("conn-outcome", 3) // 0 established, 1 fails, 2 established while shutdown arrives
+			out := verifChoose("conn-outcome", 4) // 0 established, 1 fails, 2 established while shutdown arrives, 3 fails with a timeout-typed error
 			c10.sessionOutcome, c10.pingOutcome = 0, 0
 			if out == 0 {
 				c10.sessionOutcome = verifChoose("yamux-setup", 2)
@@ -272,6 +287,9 @@ func verifHarness_C10_pool() {
 			case out == 2:
 				verifAction("connection-established-while-shutdown-arrives")
 				verifReach("shutdown-during-connect")
+			case out == 3:
+				verifAction("connect-times-out")
+				verifReach("connect-timeout-error")
 			case out != 0:
 				verifAction("connect-fails")
 			case c10.sessionOutcome != 0:
